@@ -384,9 +384,9 @@ theorem depth_bounded_map_near_limit (ops : NumOps) (fuel : Nat) (this x f : Val
     at the whole chain, inside a call only at the innermost frame) and that the free name `f`
     of the body is not captured from an outer frame. -/
 theorem runaway_self_recursion_definition (ops : NumOps) (fuel depth : Nat) (s : ES)
-    (h : envContains s.env "f" = false) :
+    (h : envContains s.env "f" = false) (hfr : nameOf s.names s.nextId = none) :
     eval ops (fuel + 2) depth selfDef s = (.ok (selfLam s.nextId), afterSelfDef s) :=
-  eval_selfDef ops fuel depth s h
+  eval_selfDef ops fuel depth s h hfr
 
 /-- the call level: in ANY state in which the cell of `selfLam id` is named `f`, at ANY depth,
     with ANY number as argument and ANY fuel, calling it gives `fuel` or `err depth` and
@@ -400,12 +400,12 @@ theorem runaway_self_recursion_call_dichotomy (ops : NumOps) (id fuel : Nat) (x 
 /-- the program level: after `f = n => f(n + 1)`, evaluating `f(0)` gives `fuel` or `err depth`
     (never a value, another error or a panic), for every `ops`, all fuels, any depth -/
 theorem runaway_self_recursion_dichotomy (ops : NumOps) (fuel0 fuel depth : Nat) (s : ES)
-    (h : envContains s.env "f" = false) :
+    (h : envContains s.env "f" = false) (hfr : nameOf s.names s.nextId = none) :
     eval ops fuel depth selfCall (eval ops (fuel0 + 2) 0 selfDef s).2 =
       (.fuel, (eval ops (fuel0 + 2) 0 selfDef s).2) ∨
     eval ops fuel depth selfCall (eval ops (fuel0 + 2) 0 selfDef s).2 =
       (.err .depth, (eval ops (fuel0 + 2) 0 selfDef s).2) := by
-  rw [eval_selfDef ops fuel0 0 s h]
+  rw [eval_selfDef ops fuel0 0 s h hfr]
   by_cases hk : fuel < 3
   · left
     exact eval_selfCall_small ops fuel depth s.nextId _ hk (afterSelfDef_f s)
@@ -415,10 +415,10 @@ theorem runaway_self_recursion_dichotomy (ops : NumOps) (fuel0 fuel depth : Nat)
 
 /-- with fuel ≥ 2006 the outcome of `f(0)` at top level is exactly the call-depth error -/
 theorem runaway_self_recursion_hits_limit (ops : NumOps) (fuel0 fuel : Nat) (s : ES)
-    (h : envContains s.env "f" = false) (hf : fuel ≥ 2006) :
+    (h : envContains s.env "f" = false) (hfr : nameOf s.names s.nextId = none) (hf : fuel ≥ 2006) :
     eval ops fuel 0 selfCall (eval ops (fuel0 + 2) 0 selfDef s).2 =
       (.err .depth, (eval ops (fuel0 + 2) 0 selfDef s).2) := by
-  rw [eval_selfDef ops fuel0 0 s h]
+  rw [eval_selfDef ops fuel0 0 s h hfr]
   obtain ⟨j, rfl⟩ : ∃ j, fuel = j + 3 := ⟨fuel - 3, by omega⟩
   rw [eval_selfCall_big ops j 0 s.nextId _ (afterSelfDef_f s)]
   exact callFn_selfLam_hits_limit ops s.nextId (MAX_DEPTH + 1) 0 (by omega) (j + 2) F64.zero _
@@ -426,10 +426,10 @@ theorem runaway_self_recursion_hits_limit (ops : NumOps) (fuel0 fuel : Nat) (s :
 
 /-- … and the threshold is exact: with less fuel the model gives up first -/
 theorem runaway_self_recursion_fuel_artefact (ops : NumOps) (fuel0 fuel : Nat) (s : ES)
-    (h : envContains s.env "f" = false) (hf : fuel < 2006) :
+    (h : envContains s.env "f" = false) (hfr : nameOf s.names s.nextId = none) (hf : fuel < 2006) :
     eval ops fuel 0 selfCall (eval ops (fuel0 + 2) 0 selfDef s).2 =
       (.fuel, (eval ops (fuel0 + 2) 0 selfDef s).2) := by
-  rw [eval_selfDef ops fuel0 0 s h]
+  rw [eval_selfDef ops fuel0 0 s h hfr]
   by_cases hk : fuel < 3
   · exact eval_selfCall_small ops fuel 0 s.nextId _ hk (afterSelfDef_f s)
   · obtain ⟨j, rfl⟩ : ∃ j, fuel = j + 3 := ⟨fuel - 3, by omega⟩
@@ -440,11 +440,12 @@ theorem runaway_self_recursion_fuel_artefact (ops : NumOps) (fuel0 fuel : Nat) (
 /-- the pair: `g` is created while `h` is unbound and captures nothing (it finds `h` through
     its caller's environment at call time); `h` captures `g` -/
 theorem runaway_mutual_pair_definitions (ops : NumOps) (fuel1 fuel2 depth : Nat) (s : ES)
-    (hg : envContains s.env "g" = false) (hh : envContains s.env "h" = false) :
+    (hg : envContains s.env "g" = false) (hh : envContains s.env "h" = false)
+    (hfr : nameOf s.names s.nextId = none) (hfr2 : nameOf s.names (s.nextId + 1) = none) :
     (eval ops (fuel1 + 2) depth pairGDef s).1 = .ok (pairG s.nextId) ∧
     eval ops (fuel2 + 2) depth pairHDef (eval ops (fuel1 + 2) depth pairGDef s).2 =
       (.ok (pairH s.nextId (s.nextId + 1)), afterPairDefs s) :=
-  eval_pairDefs ops fuel1 fuel2 depth s hg hh
+  eval_pairDefs ops fuel1 fuel2 depth s hg hh hfr hfr2
 
 /-- call level, both functions, any state with the two cells named and (for `g`) `h` visible -/
 theorem runaway_mutual_pair_call_dichotomy (ops : NumOps) (idg idh fuel : Nat) (x : F64)
